@@ -128,11 +128,6 @@ impl DebugSession {
         }
     }
 
-    fn next_seq(&mut self) -> i64 {
-        self.server_seq
-            .fetch_add(1, std::sync::atomic::Ordering::Relaxed)
-    }
-
     fn next_progress_id(&mut self) -> String {
         let id = self.next_progress_id;
         self.next_progress_id = self.next_progress_id.saturating_add(1);
@@ -455,8 +450,16 @@ impl DebugSession {
         message: Option<String>,
         body: Option<Value>,
     ) -> anyhow::Result<()> {
+        #[cfg(bs_verif)]
+        crate::verif::point("session.resp_after_seq");
+
+        // the sequence number is taken under the transport lock: the output forwarders share
+        // the counter, and numbers must appear on the wire in order
+        let mut lock = self.io.lock().unwrap();
         let rsp = DapResponse {
-            seq: self.next_seq(),
+            seq: self
+                .server_seq
+                .fetch_add(1, std::sync::atomic::Ordering::Relaxed),
             r#type: "response",
             request_seq: req.seq,
             success,
@@ -465,10 +468,6 @@ impl DebugSession {
             body,
         };
         let value = serde_json::to_value(rsp)?;
-        #[cfg(bs_verif)]
-        crate::verif::point("session.resp_after_seq");
-
-        let mut lock = self.io.lock().unwrap();
         lock.write_message(&value)
     }
 
@@ -482,10 +481,12 @@ impl DebugSession {
     }
 
     fn send_event_raw(&mut self, name: &'static str, body: Option<Value>) -> anyhow::Result<()> {
-        let seq = self.next_seq();
         #[cfg(bs_verif)]
         crate::verif::point("session.event_after_seq");
         let mut lock = self.io.lock().unwrap();
+        let seq = self
+            .server_seq
+            .fetch_add(1, std::sync::atomic::Ordering::Relaxed);
 
         protocol::send_event(seq, &mut *lock, name, body)
     }
@@ -549,12 +550,12 @@ impl DebugSession {
                 match reader.read_line(&mut buf) {
                     Ok(0) => break,
                     Ok(_) => {
-                        let s = seq.fetch_add(1, std::sync::atomic::Ordering::Relaxed);
                         #[cfg(bs_verif)]
                         crate::verif::point("fwdout.after_seq");
 
                         {
                             let mut lock = io.lock().unwrap();
+                            let s = seq.fetch_add(1, std::sync::atomic::Ordering::Relaxed);
                             // TODO log it somehow
                             _ = protocol::send_event(
                                 s,
@@ -582,12 +583,12 @@ impl DebugSession {
                 match reader.read_line(&mut buf) {
                     Ok(0) => break,
                     Ok(_) => {
-                        let s = seq.fetch_add(1, std::sync::atomic::Ordering::Relaxed);
                         #[cfg(bs_verif)]
                         crate::verif::point("fwderr.after_seq");
 
                         {
                             let mut lock = io.lock().unwrap();
+                            let s = seq.fetch_add(1, std::sync::atomic::Ordering::Relaxed);
                             // TODO log it somehow
                             _ = protocol::send_event(
                                 s,
